@@ -7,7 +7,7 @@ for d in sorted(glob.glob('/verif/seeded/*/')):
     try: m=json.load(open(d+'meta.json'))
     except Exception: continue
     res=" ".join(m.get('final_checks_run') or m.get('checks_run') or [])
-    caught='caught' if 'RESULT caught' in res else ('obsolete' if m.get('note','').find('no longer breaks')>=0 else 'missed')
+    caught='caught' if 'RESULT caught' in res else ('obsolete' if m.get('note','').find('no longer breaks')>=0 else ('not a violation by the letter' if m.get('note','').find('outside the letter')>=0 else 'missed'))
     sig=''
     fr=m.get('final_first_report') or m.get('first_report') or []
     if fr:
